@@ -50,6 +50,14 @@ class SimClock:
     def sleep(self, seconds):
         raise HarnessError("blocking time.sleep() inside the queue server")
 
+    def perf_counter(self):
+        return self.monotonic()
+
+    def __getattr__(self, name):
+        # (strftime, gmtime, ... : whatever else of the time module a server module may use)
+        import time as _t
+        return getattr(_t, name)
+
 
 class ScriptedRandom:
     """Replaces qs.jobs.random: choice() is drawn from the run's PRNG and logged, or
@@ -320,12 +328,20 @@ class QsSim:
             except Exception:  # noqa: BLE001
                 pass
             QsSim._guard = StateGuard(mods)
+            QsSim._mods = mods
         self.leaked_state = QsSim._guard.restore()  # containers a previous run left modified
 
         # `random` is an optional seam: an implementation that picks the blocked worker
         # deterministically does not import it
         self._saved = (jobs.time, getattr(jobs, "random", None), misc.gevent)
         jobs.time = self.clock
+        # any other module of the server (or of nserve) that reads the clock reads the simulated one
+        import time as _real_time
+        self._saved_time_mods = []
+        for mod in list(getattr(QsSim, "_mods", None) or [jobs, misc, qserve, rpcserver]):
+            if mod is not jobs and getattr(mod, "time", None) is _real_time:
+                self._saved_time_mods.append(mod)
+                mod.time = self.clock
         if self._saved[1] is not None:
             jobs.random = self.random
         misc.gevent = _GeventProxy(self)
@@ -336,6 +352,9 @@ class QsSim:
 
     def _uninstall(self):
         jobs.time, misc.gevent = self._saved[0], self._saved[2]
+        import time as _real_time
+        for mod in getattr(self, "_saved_time_mods", []):
+            mod.time = _real_time
         if self._saved[1] is not None:
             jobs.random = self._saved[1]
         vtimer.uninstall(self._real_loop)
@@ -484,6 +503,12 @@ class QsSim:
         if not self.main_greenlet.dead:
             self.main_greenlet.kill(block=True)
         self._close_backdoors()
+        # files carry the simulated time, too
+        for name in os.listdir(self.data_dir):
+            try:
+                os.utime(os.path.join(self.data_dir, name), (self.clock.time(), self.clock.time()))
+            except OSError:
+                pass
 
     _all_backdoors = []
 
